@@ -43,7 +43,7 @@ abbrev Entry := Key × Option Nat
 structure Wheel where
   gen : Nat
   entries : List Entry
-deriving Repr
+deriving DecidableEq, Repr
 
 /-- `TimerRuntime::new` -/
 def Wheel.new : Wheel := ⟨0, []⟩
@@ -148,7 +148,7 @@ deriving DecidableEq, Repr
 structure World where
   now : Nat
   wheel : Wheel
-deriving Repr
+deriving DecidableEq, Repr
 
 def step (s : World) : Op → World × Out
   | .insert d => let (w, r) := insert s.wheel s.now d; (⟨s.now, w⟩, .ins r)
